@@ -123,7 +123,7 @@ int main(int argc, char** argv) {
       }
       vf::finish(); return 0;
    }
-   int maxwords = vf::thorough() ? 5 : 4;
+   int maxwords = vf::deep() ? 6 : vf::thorough() ? 5 : 4;
    for (int W = 8; W <= 12; ++W) for (int indent = 0; indent <= 3; ++indent) for (int first = 0; first < 2; ++first) {
       if (!vf::want_case()) continue;
       Cfg c{W, indent, first != 0};
